@@ -126,7 +126,7 @@ func RealKill(sc *Scenario, k int, ref []*workflow.Plan, which string, res *vpro
 		res.Fail(which+"/real-kill:store-unusable", "after SIGKILL at write %d the sqlite store could not be reopened: %v", k, err)
 		return true
 	}
-	stream, err := v.List(ctx, 0)
+	stream, err := v.List(ctx, 1<<20)
 	if err != nil {
 		return false
 	}
@@ -192,7 +192,6 @@ func WriteFault(sc *Scenario, k int, res *vprop.Result) bool {
 	}
 	rr := &RunResult{Sc: sc}
 	failedAt := -1
-	failedPlan := -1
 	for _, line := range strings.Split(string(data), "\n") {
 		if line == "" {
 			continue
@@ -211,7 +210,7 @@ func WriteFault(sc *Scenario, k int, res *vprop.Result) bool {
 			if ll.WErr {
 				w.Err = fmt.Errorf("injected storage write failure")
 				if ll.K == EvWriteEnd && failedAt < 0 {
-					failedAt, failedPlan = len(rr.Events), ll.Plan
+					failedAt = len(rr.Events)
 				}
 			}
 			e.W = w
@@ -233,11 +232,51 @@ func WriteFault(sc *Scenario, k int, res *vprop.Result) bool {
 		v.Msg = fmt.Sprintf("storage update %d (%s %v) failed: %s\n%s", k, rr.Events[failedAt].Tag, rr.Events[failedAt].W.State.Status, v.Msg, FormatEvents(rr.Events, 30))
 		return true
 	}
-	// "the terminal state of the whole plan is durable before any waiter is released": after a failed write of an
-	// object of the plan its waiter must not be released
-	for i := failedAt + 1; i < len(rr.Events); i++ {
-		if e := rr.Events[i]; e.Kind == EvWaitRet && e.PlanIdx == failedPlan && e.Err == "" {
-			res.Fail("C08/waiter-released-after-failed-write", "storage update %d (%s) failed but Wait on plan p%d returned afterwards (log %d)\n%s", k, rr.Events[failedAt].Tag, failedPlan, i, FormatEvents(rr.Events, 30))
+	// "the terminal state of the whole plan is durable before any waiter is released" and "every state change is durable
+	// before the engine acts on it", judged on the child's log exactly as in a fault-free run: when Wait returns, a
+	// terminal plan row must have been stored successfully, and no object of the plan may have a failed write as its
+	// latest write. How the engine reacts to the failed write (exit, retry until it is stored, fail the plan) is not
+	// prescribed: an earlier version of this rule demanded that the waiter is never released, i.e. that the failure is
+	// fatal, which no statement says (DESIGN §8 item 13).
+	for i, e := range rr.Events {
+		if e.Kind != EvWaitRet || e.Err != "" || e.PlanIdx < 0 {
+			continue
+		}
+		ptag := fmt.Sprintf("p%d", e.PlanIdx)
+		termDurable := false
+		lastFailed := map[string]int{}
+		lastStored := map[string]*DurObj{}
+		for j := 0; j < i; j++ {
+			w := rr.Events[j]
+			if w.Kind != EvWriteEnd || w.W == nil || w.PlanIdx != e.PlanIdx {
+				continue
+			}
+			if w.W.Err != nil {
+				// a failed write that would have stored what is already durable for that object (same status, same
+				// number of attempts: all the child's log carries) is a redundant rewrite and loses nothing
+				if d, ok := lastStored[w.W.Tag]; !ok || d.Status != w.W.State.Status || len(d.Attempts) != len(w.W.Attempts) {
+					lastFailed[w.W.Tag] = j
+				}
+				continue
+			}
+			delete(lastFailed, w.W.Tag)
+			lastStored[w.W.Tag] = &DurObj{Status: w.W.State.Status, Attempts: w.W.Attempts}
+			if w.W.Tag == ptag && finished(w.W.State.Status) {
+				termDurable = true
+			}
+		}
+		if !termDurable {
+			res.Fail("C08/waiter-released-before-terminal-durable:after-failed-write", "storage update %d (%s) failed; Wait on plan p%d returned (log %d) although no terminal plan state had been stored successfully\n%s", k, rr.Events[failedAt].Tag, e.PlanIdx, i, FormatEvents(rr.Events, 30))
+			return true
+		}
+		tags := make([]string, 0, len(lastFailed))
+		for tag := range lastFailed {
+			tags = append(tags, tag)
+		}
+		sort.Strings(tags)
+		for _, tag := range tags {
+			j := lastFailed[tag]
+			res.Fail("C08/final-state-not-durable-at-release:after-failed-write", "the latest storage update of %s (%v, log %d) failed and was never stored, yet Wait on plan p%d returned (log %d)\n%s", tag, rr.Events[j].W.State.Status, j, e.PlanIdx, i, FormatEvents(rr.Events, 30))
 			return true
 		}
 	}
